@@ -330,6 +330,9 @@ func (ps *specParser) parseMul() (*SExpr, error) {
 }
 
 func (ps *specParser) parseUnary() (*SExpr, error) {
+	if t := ps.peek(); t.k == "id" && (t.s == "forall" || t.s == "exists") {
+		return ps.parseExpr()
+	}
 	if ps.isOp("!") || ps.isOp("-") {
 		op := ps.next().s
 		x, err := ps.parseUnary()
